@@ -94,7 +94,7 @@ pub fn gen_scenario(r: &mut Rng, seed: u64) -> Scenario {
     let sig = hash64(&(torrent.piece_len, n, torrent.files.len(), honest, extra));
     let max_virtual_ms = 600_000 + 360_000 * (honest + extra + 1) as u64;
     Scenario {
-        cfg: SimCfg { torrent, peers, tracker, failpoints, max_virtual_ms, stop_on_extract: true, linger_ms: 200, disk_on: disk_never, seed, driver: None },
+        cfg: SimCfg { torrent, peers, tracker, failpoints, max_virtual_ms, stop_on_extract: true, linger_ms: 200, disk_on: disk_never, seed, tracker_fn: None, driver: None },
         desc,
         sig,
     }
